@@ -87,7 +87,29 @@ def can_reenter(F, f, c):
         tf = F.fns.get(t)
         if tf is not None and any("fn(" in (i or "") or "Fn" in (i or "") for i in (tf.inputs or [])):
             return True
+        if makes_indirect_calls(F, t):
+            return True     # e.g. a method of a context struct that holds the procedure as a `fn` field
     return False
+
+
+def makes_indirect_calls(F, src, _memo={}):
+    """some function reachable from src calls through a function value (fn pointer / closure field)"""
+    key = (id(F), src)
+    if key in _memo:
+        return _memo[key]
+    seen, todo, ok = {src}, [src], False
+    while todo and not ok:
+        g = todo.pop()
+        fn = F.fns.get(g)
+        if fn is not None and any(c.indirect for c in fn.calls):
+            ok = True
+            break
+        for h in F.edges.get(g, ()):
+            if h not in seen:
+                seen.add(h)
+                todo.append(h)
+    _memo[key] = ok
+    return ok
 
 
 def run(cx, rep):
